@@ -60,7 +60,7 @@ func pcField(v ssa.Value) (string, bool) {
 	if st == nil {
 		return "", false
 	}
-	return st.Field(fa.Field).Name(), true
+	return nm(st.Field(fa.Field)), true
 }
 
 // modeCond evaluates a branch condition that is a (negated) load of PrintCtx.jsonMode / noColor.
@@ -321,7 +321,7 @@ func pcFields(p *Prog) []string {
 	st := structOf(n)
 	var out []string
 	for i := 0; i < st.NumFields(); i++ {
-		out = append(out, st.Field(i).Name())
+		out = append(out, nm(st.Field(i)))
 	}
 	return out
 }
